@@ -11,7 +11,8 @@
 
    Token domain (the JSON-literal domain): identifiers (`null`, the three internal
    markers `array` `object` `key` that follow `@`, and variables), literals (unsuffixed
-   integer, float, string, `true`/`false`), the punctuation `@ , : -`, the three kinds of
+   integer -- unsuffixed or with one of the suffixes i8..i64, u8..u64 --, float, string,
+   `true`/`false`), the punctuation `@ , : -`, the three kinds of
    delimited groups, and interpolated `expr` nonterminals (what `$x:expr`/`$x:literal`
    captures re-emit; they are opaque to token patterns but match `expr`, `literal`, `tt`).
    Fragment classes on that domain:
@@ -35,7 +36,11 @@ From JsonSyntax Require Import Base.Prelude Base.Value.
 Inductive punct := PAt | PComma | PColon | PMinus.
 Inductive ident := INull | IArray | IObject | IKey | IVar (x : list N).
 Inductive delim := Paren | Bracket | Brace.
-Inductive lit := LInt (n : N) | LFloat (s : list N) | LStr (s : list N) | LBool (b : bool).
+(* the integer types T for which `impl From<T> for Value` exists (src/lib.rs, from_integer!);
+   a literal with any other suffix (usize, isize, i128, u128) does not compile here *)
+Inductive ity := TI8 | TI16 | TI32 | TI64 | TU8 | TU16 | TU32 | TU64.
+(* an integer literal: its value and its optional type suffix (`255u8`, `7`) *)
+Inductive lit := LInt (n : N) (sfx : option ity) | LFloat (s : list N) | LStr (s : list N) | LBool (b : bool).
 
 Inductive tt : Type :=
 | TIdent (i : ident)
@@ -495,8 +500,24 @@ Definition dec_of_Z (z : Z) : list N :=
   if (z <? 0)%Z then 0x2D :: dec_of_N (Z.abs_N z) else dec_of_N (Z.abs_N z).
 
 (* an unsuffixed integer literal in this position is an i32 (inference falls back to i32
-   because eight integer types convert); a literal out of range does not compile *)
-Definition in_i32 (z : Z) : bool := ((-2147483648 <=? z) && (z <=? 2147483647))%Z.
+   because eight integer types convert); a suffixed one has the type of its suffix.  A literal
+   out of the range of its type does not compile (overflowing_literals is deny-by-default; the
+   lint looks at the negated literal as a whole, so `-128i8` is accepted and `128i8` is not),
+   and an unsigned literal cannot be negated at all (`-0u8` is a type error). *)
+Definition ity_of (sfx : option ity) : ity := match sfx with Some t => t | None => TI32 end.
+Definition ity_signed (t : ity) : bool :=
+  match t with TI8 | TI16 | TI32 | TI64 => true | _ => false end.
+Definition ity_min (t : ity) : Z :=
+  match t with
+  | TI8 => -128 | TI16 => -32768 | TI32 => -2147483648 | TI64 => -9223372036854775808
+  | _ => 0
+  end%Z.
+Definition ity_max (t : ity) : Z :=
+  match t with
+  | TI8 => 127 | TI16 => 32767 | TI32 => 2147483647 | TI64 => 9223372036854775807
+  | TU8 => 255 | TU16 => 65535 | TU32 => 4294967295 | TU64 => 18446744073709551615
+  end%Z.
+Definition in_ity (t : ity) (z : Z) : bool := ((ity_min t <=? z) && (z <=? ity_max t))%Z.
 
 Fixpoint map_opt {A B} (f : A -> option B) (l : list A) : option (list B) :=
   match l with
@@ -513,9 +534,11 @@ Section Run.
   (* Value::try_from / Value::from of a (negated) literal *)
   Definition conv_lit (neg : bool) (l : lit) : option value :=
     match l with
-    | LInt n =>
+    | LInt n sfx =>
+        let t := ity_of sfx in
         let z := if neg then (- Z.of_N n)%Z else Z.of_N n in
-        if in_i32 z then Some (VNum (dec_of_Z z)) else None
+        if neg && negb (ity_signed t) then None
+        else if in_ity t z then Some (VNum (dec_of_Z z)) else None
     | LFloat s =>
         match fmt_f64 s with
         | Some r => Some (VNum (if neg then 0x2D :: r else r))
